@@ -107,7 +107,7 @@ pub fn subs() -> Vec<Sub> {
 pub fn run(env: &mut Env) -> RunResult {
     env.run_inputs(SUB_B3, &crate::checks::c04::vectors(crate::model::Fam::V3))?;
     env.run_inputs(SUB_B5, &crate::checks::c04::vectors(crate::model::Fam::V5))?;
-    let n = env.tier.sel(6_000, 120_000);
+    let n = env.tier.sel(40_000, 600_000);
     env.run_tapes(SUB_V3, n, 200)?;
     env.run_tapes(SUB_V5, n * 2, 300)?;
     for s in ["c06.agree.v3", "c06.agree.v5"] {
